@@ -1188,7 +1188,20 @@ impl World {
                 };
                 Some(match kind {
                     Kind::SetAttr => Op::SetAttr { e, attr, value },
-                    Kind::SetAttrStr => Op::SetAttrStr { e, attr, text: value.to_string() },
+                    Kind::SetAttrStr => {
+                        // text of a non-string attribute with blanks around it: the conversion must not accept (and store) what the
+                        // value space does not contain
+                        let mut text = value.to_string();
+                        if !matches!(spec, CharacterDataSpec::String { .. }) && self.rng.chance(1, 5) {
+                            text = match self.rng.below(4) {
+                                0 => format!(" {text}"),
+                                1 => format!("{text} "),
+                                2 => format!("\t{text}\n"),
+                                _ => format!("\u{a0}{text}"),
+                            };
+                        }
+                        Op::SetAttrStr { e, attr, text }
+                    }
                     _ => Op::RemoveAttr { e, attr },
                 })
             }
